@@ -107,6 +107,12 @@ class P:
                 self.accept("mut")
                 name = self.next()
                 if name[0] != "id": raise KernelError("unsupported let pattern %r" % name[1])
+                if self.peek()[1] == "{":          # `let Range{start, end} = e;`
+                    self.next(); fields = []
+                    while not self.accept("}"):
+                        fields.append(self.next()[1]); self.accept(",")
+                    self.expect("="); e = self.expr(); self.expect(";")
+                    out.append(("letstruct", name[1], fields, e)); continue
                 if self.accept(":"):        # type annotation
                     while self.peek()[1] != "=": self.next()
                 self.expect("="); e = self.expr(); self.expect(";")
@@ -131,7 +137,8 @@ class P:
                 out.append(("expr", e)); continue
             e = self.expr()
             if self.peek()[1] in ("=", "-=", "+="):
-                op = self.next()[1]; rhs = self.expr(); self.expect(";")
+                op = self.next()[1]; rhs = self.expr()
+                if self.peek()[1] != "}": self.expect(";")
                 out.append(("assign", e, op, rhs)); continue
             if self.accept(";"): out.append(("expr", e))
             elif self.peek()[1] in ("}",) or self.peek()[0] == "eof": out.append(("tail", e))
@@ -193,6 +200,12 @@ class P:
             if d: out.append(t[1])
         return " ".join(out)
     def primary(self):
+        if self.peek()[1] in ("|", "||"):          # closure
+            params = []
+            if self.next()[1] == "|":
+                while not self.accept("|"): params.append(self.next()[1])
+            body = self.expr()
+            return ("closure", params, body)
         k, v = self.next()
         if k == "num": return ("num", int(v.replace("_", "").replace("usize", "")))
         if k == "str": return ("str", v)
@@ -1023,6 +1036,491 @@ def translate_cmds(repo_src):
     out.append("def drop_fn_cmds (len : Nat) : List MCmd :=\n  %s\n" % lean)
     return "\n".join(out), errors
 
+
+# ------------------------------------------------------------------------------------------ view kernels
+class EmitView(Emit):
+    """`from_raw_parts(_mut)(ptr, count)` at the end of a view function -> (byte offset of ptr from the storage pointer, count).
+    Pointers are (byte offset term, typed): `mem.as_ptr()` is offset 0, an untyped `.add(b)` adds b bytes, a typed one b * size."""
+    def __init__(self, env, helpers):
+        Emit.__init__(self, env, {}, {})
+        self.helpers = helpers
+    def nat(self, e):
+        pre = []; v = self.pure(e, pre)
+        if pre: raise KernelError("checked arithmetic in a view")
+        return par(v)
+    def bptr(self, e):
+        k = e[0]
+        if k == "block" and len(e[1]) == 1 and e[1][0][0] == "tail": return self.bptr(e[1][0][1])
+        if k == "cast":
+            p = self.bptr(e[1]); ty = e[2].replace(" ", "")
+            if not ty.startswith("*"): raise KernelError("pointer cast to %s" % e[2])
+            return (p[0], not (ty.endswith("u8") or ty.endswith("MaybeUninit<u8>")))
+        if k == "call":
+            recv, m, args = e[1], e[2], e[3]
+            key = self.path(e)
+            if key in self.helpers:
+                body = self.helpers[key]
+                if len(body) == 1 and body[0][0] == "tail": return self.bptr(body[0][1])
+                raise KernelError("helper %s is not a single expression" % key)
+            if m in ("as_ptr", "as_mut_ptr") and not args and (self.path(recv) or "").endswith(".mem"): return ("0", False)
+            if m in ("as_ptr", "as_mut_ptr") and not args and recv[0] == "call" and recv[2] in ("this", "this_mut") and False: pass
+            if m in ("as_ptr", "as_mut_ptr") and not args and recv[0] == "field" and recv[2] == "mem": return ("0", False)
+            p = self.bptr(recv)
+            if m == "cast" and not args: return (p[0], (e[4] or "").replace(" ", "") != "u8")
+            if m == "add" and len(args) == 1:
+                n = self.nat(args[0])
+                return ("(%s + %s)" % (p[0], n) if not p[1] else "(%s + %s * size)" % (p[0], n), p[1])
+            raise KernelError("unsupported pointer method .%s()" % m)
+        raise KernelError("not a pointer expression: %s" % unparse(e))
+    def view(self, stmts):
+        if len(stmts) != 1 or stmts[0][0] != "tail": raise KernelError("view function is not a single expression")
+        e = stmts[0][1]
+        while e[0] == "block" and len(e[1]) == 1 and e[1][0][0] == "tail": e = e[1][0][1]
+        if e[0] != "fcall" or e[1].split("::")[-1] not in ("from_raw_parts", "from_raw_parts_mut") or len(e[2]) != 2:
+            raise KernelError("view function does not end in from_raw_parts(ptr, count)")
+        p = self.bptr(e[2][0])
+        return "(%s, %s)" % (p[0], self.nat(e[2][1]))
+
+VIEW_ENV = {"self.len()": "len", "self.capacity()": "cap", "self.element_layout().size()": "size"}
+VIEWS = [
+    # (lean name, file, fn, helper fns)
+    ("as_bytes_view", "any_vec.rs", "as_bytes", []),
+    ("as_bytes_mut_view", "any_vec.rs", "as_bytes_mut", []),
+    ("spare_bytes_mut_view", "any_vec.rs", "spare_bytes_mut", []),
+    ("as_slice_view", "any_vec_typed.rs", "as_slice", ["as_ptr", "as_mut_ptr"]),
+    ("as_mut_slice_view", "any_vec_typed.rs", "as_mut_slice", ["as_ptr", "as_mut_ptr"]),
+    ("spare_capacity_mut_view", "any_vec_typed.rs", "spare_capacity_mut", ["as_ptr", "as_mut_ptr"]),
+]
+def translate_views(repo_src):
+    out = []; errors = {}
+    for (lname, f, fn, hs) in VIEWS:
+        try:
+            src = strip_comments(open(os.path.join(repo_src, f)).read())
+            helpers = {"self.%s()" % h: P(tokenize(find_fn(src, h, None))).block() for h in hs}
+            ast = P(tokenize(find_fn(src, fn, None))).block()
+            lean = EmitView(VIEW_ENV, helpers).view(ast)
+        except KernelError as ex:
+            errors[lname] = str(ex); lean = "(USIZE_MAX, USIZE_MAX) -- could not be translated: %s" % str(ex)
+        except Exception as ex:
+            errors[lname] = "translator failure: %r" % (ex,); lean = "(USIZE_MAX, USIZE_MAX) -- translator failure"
+        out.append("/-- `%s` in src/%s: (byte offset from the storage pointer, length in bytes or elements) -/" % (fn, f))
+        out.append("def %s (len cap size : Nat) : Nat × Nat :=\n  %s\n" % (lname, lean))
+    return "\n".join(out), errors
+
+
+# ------------------------------------------------------------------------------------------ call traces of the API wrappers
+class EmitTrace(Emit):
+    """a thin API function -> the list of calls it makes, in evaluation order (arguments before the call, receiver
+    before the method), each with those of its arguments that are integers of this kernel; integer conditions stay `if`s"""
+    SKIP = {"AnyVecPtr::from", "AnyVecRawPtr::from", "NonNull::from", "PhantomData"}
+    def __init__(self, env, conds=None):
+        Emit.__init__(self, env, {}, {})
+        self.conds = conds or {}          # rust path of a bool-valued call -> lean Bool term
+    def nat_or_fail(self, e):
+        v = self.try_nat(e)
+        if v is None: raise KernelError("not an integer expression: %s" % unparse(e))
+        return v
+    def try_nat(self, e):
+        def closed(x):
+            if not isinstance(x, tuple): return True
+            if x and x[0] in ("var", "field", "call") and self.path(x) in self.env: return True
+            if x and x[0] == "var": return x[1] in self.env or x[1].startswith("usize")
+            if x and x[0] in ("call", "fcall", "closure", "struct", "block", "if", "match"): return False
+            return all(closed(y) for y in x[1:])
+        if not closed(e): return None
+        try:
+            pre = []; v = self.pure(e, pre)
+            return None if pre else par(v)
+        except KernelError:
+            return None
+    def is_typeid(self, e):
+        """an expression that is the run-time type id of the value / vector, or `TypeId::of::<T>()` of the requested type"""
+        if e[0] == "call" and e[2] in ("value_typeid", "element_typeid") and not e[3] and e[1] == ("var", "self"): return "own"
+        if e[0] == "fcall" and e[1] == "TypeId::of" and not e[2] and (e[3] or "").replace(" ", "") == "T": return "asked"
+        return None
+    def cond(self, e, pre):
+        key = self.path(e) if e[0] in ("call", "field", "var") else None
+        if key in self.conds: return self.conds[key]
+        if e[0] == "bin" and e[1] in ("==", "!="):
+            a, b = self.is_typeid(e[2]), self.is_typeid(e[3])
+            if a and b and a != b: return "sameType" if e[1] == "==" else "(!sameType)"
+            if a or b: raise KernelError("type-id comparison is not `own type id` against `TypeId::of::<T>()`")
+        return Emit.cond(self, e, pre)
+    def calls(self, e, out):
+        """append the calls made while evaluating expression `e` to `out` (list of lean TStep terms or nested conditionals)"""
+        k = e[0]
+        if k in ("num", "str", "var", "field"):
+            if k == "var" and e[1] == "None": out.append("TStep.retNone")
+            return
+        if k in ("deref", "not", "cast"): return self.calls(e[1], out)
+        if k == "block": return self.stmts_t(e[1], out)
+        if k == "closure":
+            inner = []; self.calls(e[2], inner)
+            out.append("TStep.closure [%s]" % ", ".join(inner)); return
+        if k == "bin":
+            self.calls(e[2], out); self.calls(e[3], out); return
+        if k == "fcall":
+            name = e[1]
+            if name == "Some":
+                for a in e[2]: self.calls(a, out)
+                out.append("TStep.retSome"); return
+            for a in e[2]: self.calls(a, out)
+            short = "::".join(name.split("::")[-2:])
+            if short in self.SKIP or name in self.SKIP: return
+            ints = [x for x in (self.try_nat(a) for a in e[2]) if x is not None]
+            out.append('TStep.call "%s" [%s]' % (short, ", ".join(ints))); return
+        if k == "call":
+            key = self.path(e)
+            if key in self.env: return
+            self.calls(e[1], out)
+            for a in e[3]: self.calls(a, out)
+            if e[2] in ("this", "this_mut", "into_iter") and not e[3]: return
+            if e[2] == "unwrap" and not e[3]: out.append("TStep.unwrap"); return
+            ints = [x for x in (self.try_nat(a) for a in e[3]) if x is not None]
+            out.append('TStep.call "%s" [%s]' % (e[2], ", ".join(ints))); return
+        if k == "if":
+            c = self.cond(e[1], [])
+            a, b = [], []
+            self.stmts_t(e[2], a); self.stmts_t(e[3] or [], b)
+            out.append("TStep.branch %s [%s] [%s]" % (c, ", ".join(a), ", ".join(b))); return
+        if k == "struct":
+            for v in e[2].values(): self.calls(v, out)
+            return
+        raise KernelError("unsupported expression in an API wrapper: %s" % k)
+    def stmts_t(self, stmts, out):
+        for s in stmts:
+            if s[0] == "let":
+                self.calls(s[2], out)
+                v = self.try_nat(s[2])
+                if v is not None and s[2][0] in ("num", "bin", "var", "field", "call") and self.path(s[2]) in self.env: self.env[s[1]] = v
+            elif s[0] == "letstruct":
+                self.calls(s[3], out)
+                for f in s[2]: self.env[f] = {"end": "end_"}.get(f, f)
+            elif s[0] in ("expr", "tail"): self.calls(s[1], out)
+            elif s[0] == "assert":
+                c = self.cond(s[1], [])
+                msg = s[2] if s[2] is not None else '"assertion failed: %s"' % unparse(s[1])
+                out.append("TStep.branch %s [] [TStep.panic %s]" % (c, msg))
+            elif s[0] == "return": out.append("TStep.ret")
+            else: raise KernelError("unsupported statement in an API wrapper: %s" % s[0])
+
+TSTEP_DECL = """/-- one call made by a thin API function, with its integer arguments; `branch c a b` is an `if` on integers -/
+inductive TStep where
+  | call (name : String) (args : List Nat)
+  | closure (body : List TStep)
+  | branch (c : Bool) (thenSteps elseSteps : List TStep)
+  | retSome | retNone | unwrap | ret
+  | panic (msg : String)
+"""
+ANY = {"self.len()": "len", "self.raw.len": "len", "self.len": "len", "index": "index", "self.this().len": "len"}
+ANYC = {"self.is_empty()": "(len == 0)"}
+TRACES = [
+    # (lean name, file, fn, marker, params)
+    ("raw_index_check", "any_vec_raw.rs", "index_check", None, "(len index : Nat)"),
+    ("raw_type_check", "any_vec_raw.rs", "type_check", None, "(len index : Nat)"),
+    ("anyvec_push", "any_vec.rs", "push", None, "(len index : Nat)"),
+    ("anyvec_insert", "any_vec.rs", "insert", None, "(len index : Nat)"),
+    ("anyvec_pop", "any_vec.rs", "pop", None, "(len index : Nat)"),
+    ("anyvec_remove", "any_vec.rs", "remove", None, "(len index : Nat)"),
+    ("anyvec_swap_remove", "any_vec.rs", "swap_remove", None, "(len index : Nat)"),
+    ("anyvec_drain", "any_vec.rs", "drain", None, "(len index start end_ : Nat)"),
+    ("anyvec_splice", "any_vec.rs", "splice", None, "(len index start end_ : Nat)"),
+    ("anyvec_clear", "any_vec.rs", "clear", None, "(len index : Nat)"),
+    ("anyvec_get", "any_vec.rs", "get", None, "(len index : Nat)"),
+    ("anyvec_get_mut", "any_vec.rs", "get_mut", None, "(len index : Nat)"),
+    ("anyvec_at", "any_vec.rs", "at", None, "(len index : Nat)"),
+    ("anyvec_at_mut", "any_vec.rs", "at_mut", None, "(len index : Nat)"),
+    ("anyvec_iter", "any_vec.rs", "iter", None, "(len index : Nat)"),
+    ("anyvec_iter_mut", "any_vec.rs", "iter_mut", None, "(len index : Nat)"),
+    ("typed_push", "any_vec_typed.rs", "push", None, "(len index : Nat)"),
+    ("typed_insert", "any_vec_typed.rs", "insert", None, "(len index : Nat)"),
+    ("typed_pop", "any_vec_typed.rs", "pop", None, "(len index : Nat)"),
+    ("typed_remove", "any_vec_typed.rs", "remove", None, "(len index : Nat)"),
+    ("typed_swap_remove", "any_vec_typed.rs", "swap_remove", None, "(len index : Nat)"),
+    ("typed_drain", "any_vec_typed.rs", "drain", None, "(len index start end_ : Nat)"),
+    ("typed_splice", "any_vec_typed.rs", "splice", None, "(len index start end_ : Nat)"),
+    ("typed_clear", "any_vec_typed.rs", "clear", None, "(len index : Nat)"),
+    ("typed_get", "any_vec_typed.rs", "get", None, "(len index : Nat)"),
+    ("typed_get_mut", "any_vec_typed.rs", "get_mut", None, "(len index : Nat)"),
+    ("typed_at", "any_vec_typed.rs", "at", None, "(len index : Nat)"),
+    ("typed_at_mut", "any_vec_typed.rs", "at_mut", None, "(len index : Nat)"),
+    ("typed_iter", "any_vec_typed.rs", "iter", None, "(len index : Nat)"),
+    ("typed_len", "any_vec_typed.rs", "len", None, "(len index : Nat)"),
+    ("typed_is_empty", "any_vec_typed.rs", "is_empty", None, "(len index : Nat)"),
+    ("anyvec_len", "any_vec.rs", "len", None, "(len index : Nat)"),
+    ("anyvec_is_empty", "any_vec.rs", "is_empty", None, "(len index : Nat)"),
+    # values: how each kind moves into a slot, and the checked downcasts
+    ("lazy_move_into", "any_value/lazy_clone.rs", "move_into", None, "(sameType : Bool)"),
+    ("lazy_clone_into", "any_value/lazy_clone.rs", "clone_into", None, "(sameType : Bool)"),
+    ("value_move_into", "any_value/mod.rs", "move_into", None, "(sameType : Bool)"),
+    ("temp_move_into", "ops/temp.rs", "move_into", None, "(sameType : Bool)"),
+    ("value_downcast_ref", "any_value/mod.rs", "downcast_ref", None, "(sameType : Bool)"),
+    ("value_downcast", "any_value/mod.rs", "downcast", None, "(sameType : Bool)"),
+    ("value_downcast_mut", "any_value/mod.rs", "downcast_mut", None, "(sameType : Bool)"),
+    ("value_downcast_unchecked", "any_value/mod.rs", "downcast_unchecked", None, "(sameType : Bool)"),
+    ("value_swap", "any_value/mod.rs", "swap", None, "(sameType : Bool)"),
+    ("element_downcast_ref", "element.rs", "downcast_ref", None, "(sameType : Bool)"),
+    ("element_downcast_mut", "element.rs", "downcast_mut", None, "(sameType : Bool)"),
+    ("anyvec_downcast_ref", "any_vec.rs", "downcast_ref", None, "(sameType : Bool)"),
+    ("anyvec_downcast_mut", "any_vec.rs", "downcast_mut", None, "(sameType : Bool)"),
+]
+def translate_traces(repo_src):
+    out = [TSTEP_DECL]; errors = {}
+    for (lname, f, fn, marker, params) in TRACES:
+        try:
+            src = strip_comments(open(os.path.join(repo_src, f)).read())
+            ast = P(tokenize(find_fn(src, fn, marker))).block()
+            env = dict(ANY)
+            if fn in ("len", "is_empty"): env = {"self.raw.len": "len", "self.this().len": "len"}
+            em = EmitTrace(env, ANYC)
+            steps = []
+            if fn in ("len", "is_empty"):
+                # value functions: their result as a term
+                if len(ast) != 1 or ast[0][0] != "tail": raise KernelError("not a single expression")
+                e = ast[0][1]
+                if fn == "len":
+                    lean = "[TStep.call \"=\" [%s]]" % em.nat_or_fail(e)
+                else:
+                    if not (e[0] == "bin" and e[1] == "==" and e[3] == ("num", 0) and e[2][0] == "call" and e[2][2] == "len"):
+                        raise KernelError("is_empty is not `self.len() == 0`")
+                    lean = "[TStep.call \"len\" [], TStep.call \"== 0\" []]"
+            else:
+                em.stmts_t(ast, steps)
+                lean = "[" + ", ".join(steps) + "]"
+        except KernelError as ex:
+            errors[lname + "_trace"] = str(ex); lean = '[TStep.panic "could not be translated: %s"]' % str(ex).replace('"', "'")
+        except Exception as ex:
+            errors[lname + "_trace"] = "translator failure: %r" % (ex,); lean = '[TStep.panic "translator failure"]'
+        out.append("/-- `%s` in src/%s -/" % (fn, f))
+        out.append("def %s_trace %s : List TStep :=\n  %s\n" % (lname, params, lean))
+    return "\n".join(out), errors
+
+
+# ------------------------------------------------------------------------------------------ allocator protocol of HeapMem::resize
+class EmitAlloc(Emit):
+    """`HeapMem::resize` -> the allocator calls it makes (with byte sizes and alignment), the layout validity check and the
+    size assignment, in evaluation order, as `List ACmd` depending on the integers involved. Allocation failure
+    (`handle_alloc_error`) is not modelled."""
+    IGNORED_F = {"dangling", "NonNull::new", "handle_alloc_error"}
+    def __init__(self, env):
+        Emit.__init__(self, env, {}, {})
+        self.layouts = {}
+    def nat_pre(self, e):
+        pre = []; v = self.pure(e, pre)
+        for b in pre:
+            if not re.fullmatch(r"let t\d+ ← checked(Add|Mul) .*", b): raise KernelError("unsupported computation in resize")
+        return pre, par(v)
+    def wrap_pre(self, pre, body):
+        for b in reversed(pre):
+            m = re.fullmatch(r"let (t\d+) ← (.*)", b)
+            body = "(match %s with\n  | .ok %s => %s\n  | .panic m => [ACmd.panic m]\n  | .ub m => [ACmd.panic m])" % (m.group(2), m.group(1), body)
+        return body
+    def layout_of(self, e):
+        if e[0] == "var" and e[1] in self.layouts: return self.layouts[e[1]]
+        raise KernelError("not a known layout: %s" % unparse(e))
+    def ev(self, e, k):
+        """effects of evaluating `e`, then `k()`"""
+        t = e[0]
+        if t in ("num", "str", "var", "field", "closure"): return k()
+        if t in ("deref", "not", "cast"): return self.ev(e[1], k)
+        if t == "bin": return self.ev(e[2], lambda: self.ev(e[3], k))
+        if t == "block": return self.sts(list(e[1]), k)
+        if t == "if":
+            c = self.cond(e[1], [])
+            return "(if %s then\n  %s\n  else\n  %s)" % (c, self.sts(list(e[2]), k), self.sts(list(e[3] or []), k))
+        if t == "fcall":
+            name = e[1]; short = name.split("::")[-1]; args = e[2]
+            def after():
+                if name in self.IGNORED_F or short in self.IGNORED_F: return k()
+                if short == "dealloc" and len(args) == 2:
+                    b, a = self.layout_of(args[1]); return "ACmd.dealloc %s %s ::\n  %s" % (b, a, k())
+                if short == "alloc" and len(args) == 1:
+                    b, a = self.layout_of(args[0]); return "ACmd.alloc %s %s ::\n  %s" % (b, a, k())
+                if short == "realloc" and len(args) == 3:
+                    b, a = self.layout_of(args[1])
+                    pre, n = self.nat_pre(args[2])
+                    if pre: raise KernelError("checked arithmetic in a realloc argument")
+                    return "ACmd.realloc %s %s %s ::\n  %s" % (b, a, n, k())
+                raise KernelError("unsupported call %s() in resize" % name)
+            return self.evs(list(args), after)
+        if t == "call":
+            recv, m, args = e[1], e[2], e[3]
+            key = self.path(e)
+            if key in self.env: return k()
+            if m in ("as_ptr", "as_mut_ptr", "unwrap_or_else", "size", "align"): return self.ev(recv, lambda: self.evs([a for a in args if a[0] != "closure"], k))
+            raise KernelError("unsupported method .%s() in resize" % m)
+        raise KernelError("unsupported expression in resize: %s" % t)
+    def evs(self, es, k):
+        if not es: return k()
+        return self.ev(es[0], lambda: self.evs(es[1:], k))
+    def sts(self, stmts, k):
+        if not stmts: return k()
+        s, rest = stmts[0], stmts[1:]
+        nxt = lambda: self.sts(rest, k)
+        if s[0] == "return": return "[]"
+        if s[0] == "let":
+            name, rhs = s[1], s[2]
+            # layouts
+            core = rhs
+            expect_msg = None
+            if core[0] == "call" and core[2] == "expect" and len(core[3]) == 1 and core[3][0][0] == "str" and core[1][0] == "fcall":
+                expect_msg = core[3][0][1]; core = core[1]
+            if core[0] == "fcall" and core[1].split("::")[-1] in ("from_size_align_unchecked", "from_size_align") and len(core[2]) == 2:
+                checked = core[1].split("::")[-1] == "from_size_align"
+                if checked != (expect_msg is not None): raise KernelError("layout construction and its error handling do not match")
+                pb, b = self.nat_pre(core[2][0]); pa, a = self.nat_pre(core[2][1])
+                self.layouts[name] = (b, a)
+                body = ("ACmd.layoutCheck %s %s %s ::\n  %s" % (b, a, expect_msg, nxt())) if checked else nxt()
+                return self.wrap_pre(pb + pa, body)
+            pre, v = self.nat_pre(rhs)
+            nm = self.name(name); self.env.pop(name, None)
+            return self.wrap_pre(pre, "(let %s := %s;\n  %s)" % (nm, v, nxt()))
+        if s[0] == "assign":
+            key = self.path(s[1])
+            if key == "self.size" and s[2] == "=":
+                pre, v = self.nat_pre(s[3])
+                return self.wrap_pre(pre, "ACmd.setSize %s ::\n  %s" % (v, nxt()))
+            if key == "self.mem" and s[2] == "=": return self.ev(s[3], nxt)
+            raise KernelError("assignment to %s in resize" % key)
+        if s[0] in ("expr", "tail"): return self.ev(s[1], nxt)
+        raise KernelError("unsupported statement in resize: %s" % s[0])
+
+ACMD_DECL = """/-- what `HeapMem::resize` asks of the global allocator and records, in program order -/
+inductive ACmd where
+  | dealloc (bytes align : Nat)
+  | alloc (bytes align : Nat)
+  | realloc (oldBytes align newBytes : Nat)
+  /-- `Layout::from_size_align(bytes, align).expect(msg)` -/
+  | layoutCheck (bytes align : Nat) (msg : String)
+  /-- `self.size = n` -/
+  | setSize (n : Nat)
+  | panic (msg : String)
+  deriving Repr, DecidableEq
+"""
+def translate_alloc(repo_src):
+    out = [ACMD_DECL]; errors = {}
+    try:
+        src = strip_comments(open(os.path.join(repo_src, "mem/heap.rs")).read())
+        ast = P(tokenize(find_fn(src, "resize", "impl MemResizable for HeapMem"))).block()
+        em = EmitAlloc({"self.size": "size_", "new_size": "new_size", "self.element_layout.size()": "esize", "self.element_layout.align()": "ealign"})
+        lean = em.sts(ast, lambda: "[]")
+    except KernelError as ex:
+        errors["heap_resize_cmds"] = str(ex); lean = '[ACmd.panic "could not be translated: %s"]' % str(ex).replace('"', "'")
+    except Exception as ex:
+        errors["heap_resize_cmds"] = "translator failure: %r" % (ex,); lean = '[ACmd.panic "translator failure"]'
+    out.append("/-- `resize` in src/mem/heap.rs -/")
+    out.append("def heap_resize_cmds (size_ esize ealign new_size : Nat) : List ACmd :=\n  %s\n" % lean)
+    # `impl Drop for HeapMem`
+    try:
+        ast = P(tokenize(find_fn(src, "drop", "impl Drop for HeapMem"))).block()
+        ok = (len(ast) == 1 and ast[0][0] in ("expr", "tail") and ast[0][1][0] == "call" and ast[0][1][2] == "resize"
+              and ast[0][1][1] == ("var", "self") and ast[0][1][3] == [("num", 0)])
+        if not ok: raise KernelError("HeapMem::drop is not `self.resize(0)`")
+        lean = "0"
+    except KernelError as ex:
+        errors["heap_drop_resize"] = str(ex); lean = "USIZE_MAX"
+    except Exception as ex:
+        errors["heap_drop_resize"] = "translator failure: %r" % (ex,); lean = "USIZE_MAX"
+    out.append("/-- `impl Drop for HeapMem`: the size it resizes to -/")
+    out.append("def heap_drop_resize : Nat := %s\n" % lean)
+    return "\n".join(out), errors
+
+
+# ------------------------------------------------------------------------------------------ lexical field tables, layout facts
+def lexical_fields(body):
+    """a function body that is `let ..;`* followed by one struct literal -> [(name, normalised source text)]: the lets and
+    the fields of the literal (nested literals are flattened with dotted names); whitespace- and comment-insensitive"""
+    toks = [t[1] for t in tokenize(body)]
+    rows = []; i = 0
+    def join(ts):
+        out = ""
+        for t in ts:
+            if out and (out[-1].isalnum() or out[-1] == "_") and (t[0].isalnum() or t[0] == "_"): out += " "
+            out += t
+        return out
+    # leading lets
+    while i < len(toks) and toks[i] == "let":
+        j = i; d = 0
+        while j < len(toks):
+            if toks[j] in "({[": d += 1
+            elif toks[j] in ")}]": d -= 1
+            elif toks[j] == ";" and d == 0: break
+            j += 1
+        seg = toks[i + 1:j]; eq = seg.index("=")
+        rows.append(("let " + join(seg[:eq]), join(seg[eq + 1:]))); i = j + 1
+    def literal(i, prefix):
+        # toks[i] is the literal's name, toks[i+1] == "{"
+        assert toks[i + 1] == "{"
+        j = i + 2
+        while toks[j] != "}":
+            name = toks[j]
+            if toks[j + 1] == ":":
+                k = j + 2; d = 0; start = k
+                while not (d == 0 and toks[k] in (",", "}")):
+                    if toks[k] in "({[": d += 1
+                    elif toks[k] in ")}]": d -= 1
+                    k += 1
+                val = toks[start:k]
+                if len(val) >= 2 and val[1] == "{" and val[-1] == "}" and val[0][0].isupper():
+                    literal(start, prefix + name + ".")
+                else: rows.append((prefix + name, join(val)))
+                j = k
+            else:
+                rows.append((prefix + name, name)); j += 1
+            if toks[j] == ",": j += 1
+        return j + 1
+    if i >= len(toks) or i + 1 >= len(toks) or toks[i + 1] != "{": raise KernelError("function does not end in a struct literal")
+    end = literal(i, "")
+    if end != len(toks): raise KernelError("statements after the struct literal")
+    return rows
+
+LEX_TABLES = [
+    ("anyvec_into_raw_parts_fields", "any_vec.rs", "into_raw_parts", None),
+    ("anyvec_from_raw_parts_fields", "any_vec.rs", "from_raw_parts", None),
+    ("raw_parts_clone_fields", "any_vec.rs", "clone", "Clone for RawParts<M>"),
+    ("heapmem_from_raw_parts_fields", "mem/heap.rs", "from_raw_parts", None),
+    ("heap_build_fields", "mem/heap.rs", "build", None),
+]
+def translate_lex(repo_src):
+    out = []; errors = {}
+    for (lname, f, fn, marker) in LEX_TABLES:
+        try:
+            src = strip_comments(open(os.path.join(repo_src, f)).read())
+            rows = lexical_fields(find_fn(src, fn, marker))
+            lean = "[" + ", ".join('("%s", "%s")' % (a, b.replace('"', "'")) for a, b in rows) + "]"
+        except KernelError as ex:
+            errors[lname] = str(ex); lean = '[("error", "%s")]' % str(ex).replace('"', "'")
+        except Exception as ex:
+            errors[lname] = "translator failure: %r" % (ex,); lean = '[("error", "translator failure")]'
+        out.append("/-- `%s` in src/%s: where every field of the result comes from -/" % (fn, f))
+        out.append("def %s : List (String × String) :=\n  %s\n" % (lname, lean))
+    # HeapMem::into_raw_parts: a tuple
+    try:
+        src = strip_comments(open(os.path.join(repo_src, "mem/heap.rs")).read())
+        toks = [t[1] for t in tokenize(find_fn(src, "into_raw_parts", None))]
+        txt = "".join(t if not (t[0].isalnum() and False) else t for t in toks)
+        lean = '"%s"' % " ".join(toks).replace('"', "'")
+    except Exception as ex:
+        errors["heapmem_into_raw_parts_text"] = "translator failure: %r" % (ex,); lean = '"error"'
+    out.append("/-- `into_raw_parts` in src/mem/heap.rs, token by token -/")
+    out.append("def heapmem_into_raw_parts_text : String :=\n  %s\n" % lean)
+    # alignment of the in-place buffers vs. the largest element alignment they accept
+    try:
+        vals = {}
+        for nm, f, pat in [("stack_mem_align", "mem/stack.rs", r"#\[repr\(C,\s*align\((\d+)\)\)\]\s*pub struct StackMem"),
+                           ("stackn_mem_align", "mem/stack_n.rs", r"#\[repr\(C,\s*align\((\d+)\)\)\]\s*pub struct StackNMem"),
+                           ("stack_max_align", "mem/mod.rs", r"const STACK_MAX_ALIGN\s*:\s*usize\s*=\s*(\d+)\s*;")]:
+            src = strip_comments(open(os.path.join(repo_src, f)).read())
+            m = re.search(pat, src)
+            if not m:
+                errors[nm] = "declaration not found"; vals[nm] = "0"
+            else: vals[nm] = m.group(1)
+    except Exception as ex:
+        errors["stack_mem_align"] = "translator failure: %r" % (ex,); vals = {"stack_mem_align": "0", "stackn_mem_align": "0", "stack_max_align": "0"}
+    for nm in ("stack_mem_align", "stackn_mem_align", "stack_max_align"):
+        out.append("/-- `repr(align)` of the in-place buffer / `STACK_MAX_ALIGN` (src/mem) -/\ndef %s : Nat := %s\n" % (nm, vals[nm]))
+    return "\n".join(out), errors
+
 def translate(repo_src):
     """-> (lean text, {kernel: error}) ; kernels that cannot be translated are emitted as `Res.ub "<why>"` stubs"""
     out = ["/- generated by py/kernelgen.py from /repo/src on every run: the crate's pure integer kernels -/",
@@ -1104,6 +1602,14 @@ def translate(repo_src):
     out.append("def iter_clone (index end_ : Nat) : Res KEff :=\n  %s\n" % lean)
     ctext, cerrs = translate_cmds(repo_src)
     out.append(ctext); errors.update(cerrs)
+    vtext, verrs = translate_views(repo_src)
+    out.append(vtext); errors.update(verrs)
+    ttext, terrs = translate_traces(repo_src)
+    out.append(ttext); errors.update(terrs)
+    atext, aerrs = translate_alloc(repo_src)
+    out.append(atext); errors.update(aerrs)
+    ltext, lerrs = translate_lex(repo_src)
+    out.append(ltext); errors.update(lerrs)
     out.append("end AnyVec.Gen.Kernel\n")
     return "\n".join(out), errors
 
